@@ -3,6 +3,7 @@ package c18
 import (
 	"context"
 	"fmt"
+	"math"
 	"sort"
 	"strings"
 	"sync/atomic"
@@ -19,6 +20,7 @@ import (
 	sdkmetric "go.opentelemetry.io/otel/sdk/metric"
 	"go.opentelemetry.io/otel/sdk/metric/metricdata"
 	"go.opentelemetry.io/otel/sdk/resource"
+	"go.opentelemetry.io/otel/trace"
 	"go.opentelemetry.io/otel/verif/internal/vk"
 )
 
@@ -105,12 +107,21 @@ type world struct {
 	mr    *sdkmetric.ManualReader
 	mp    *sdkmetric.MeterProvider
 	round atomic.Int32
-	rec   []func(t, v int) // per instrument, nil for observables
+	rec   []func(ctx context.Context, o metric.MeasurementOption, v int) // per instrument, nil for observables
+	sets  [][3][]metric.MeasurementOption                                // per instrument: plain / +short ex.url / +long ex.url, per tuple
+
+	early    []*dto.MetricFamily // the scrape before registration (Case.Early)
+	earlyErr error
+	ghostReg *prometheus.Registry // Case.Ghost
+	ghost    *otelprom.Exporter
 }
 
 func (w *world) close() {
 	if w.mp != nil {
 		_ = w.mp.Shutdown(context.Background())
+	}
+	if w.ghost != nil {
+		_ = w.ghost.Shutdown(context.Background())
 	}
 }
 
@@ -163,6 +174,19 @@ func build(c *Case) (*world, error) {
 	if err != nil {
 		return nil, fmt.Errorf("prometheus.New: %w", err)
 	}
+	if c.Ghost {
+		// same options, own registry, never handed to a provider
+		w.ghostReg = prometheus.NewRegistry()
+		gopts := append([]otelprom.Option{}, opts[1:]...)
+		w.ghost, err = otelprom.New(append(gopts, otelprom.WithRegisterer(w.ghostReg))...)
+		if err != nil {
+			return nil, fmt.Errorf("prometheus.New (second exporter): %w", err)
+		}
+	}
+	if c.Early {
+		// the scrape endpoint is polled before the SDK is wired up
+		w.early, w.earlyErr = w.reg.Gather()
+	}
 	w.mr = sdkmetric.NewManualReader()
 	po := []sdkmetric.Option{
 		sdkmetric.WithReader(exp),
@@ -170,14 +194,21 @@ func build(c *Case) (*world, error) {
 		sdkmetric.WithResource(resource.NewSchemaless(toKVs(c.Resource)...)),
 	}
 	for i := range c.Insts {
-		if in := &c.Insts[i]; in.ExpSize != 0 && !isObservable(in.Kind) {
-			// a view applies to every reader of the provider: the exporter
-			// and the ManualReader aggregate the instrument the same way
-			po = append(po, sdkmetric.WithView(sdkmetric.NewView(
-				sdkmetric.Instrument{Name: in.Name, Kind: sdkmetric.InstrumentKindHistogram},
-				sdkmetric.Stream{Aggregation: sdkmetric.AggregationBase2ExponentialHistogram{MaxSize: int32(in.ExpSize), MaxScale: int32(in.ExpScale)}},
-			)))
+		in := &c.Insts[i]
+		if isObservable(in.Kind) || (in.ExpSize == 0 && !in.ExDrop) {
+			continue
 		}
+		// ONE view per instrument (two matching views would make two
+		// streams). A view applies to every reader of the provider: the
+		// exporter and the ManualReader aggregate the instrument the same way.
+		var st sdkmetric.Stream
+		if in.ExpSize != 0 {
+			st.Aggregation = sdkmetric.AggregationBase2ExponentialHistogram{MaxSize: int32(in.ExpSize), MaxScale: int32(in.ExpScale)}
+		}
+		if in.ExDrop {
+			st.AttributeFilter = attribute.NewDenyKeysFilter(exKey)
+		}
+		po = append(po, sdkmetric.WithView(sdkmetric.NewView(sdkmetric.Instrument{Name: in.Name}, st)))
 	}
 	w.mp = sdkmetric.NewMeterProvider(po...)
 	meters := make([]metric.Meter, len(c.Scopes))
@@ -188,15 +219,21 @@ func build(c *Case) (*world, error) {
 		}
 		meters[i] = w.mp.Meter(s.Name, mo...)
 	}
-	ctx := context.Background()
-	w.rec = make([]func(t, v int), len(c.Insts))
+	w.rec = make([]func(ctx context.Context, o metric.MeasurementOption, v int), len(c.Insts))
+	w.sets = make([][3][]metric.MeasurementOption, len(c.Insts))
 	for i := range c.Insts {
 		in := &c.Insts[i]
 		m := meters[in.Scope]
 		sets := make([]metric.MeasurementOption, in.ntuples())
 		for t := range sets {
-			sets[t] = metric.WithAttributeSet(in.attrSet(t))
+			base := in.attrSet(t)
+			sets[t] = metric.WithAttributeSet(base)
+			for x, val := range []string{exShort, exLong} {
+				kvs := append(base.ToSlice(), attribute.String(exKey, val))
+				w.sets[i][x+1] = append(w.sets[i][x+1], metric.WithAttributeSet(attribute.NewSet(kvs...)))
+			}
 		}
+		w.sets[i][0] = sets
 		obs := in.Obs
 		obsRow := func() []int {
 			r := int(w.round.Load())
@@ -222,35 +259,35 @@ func build(c *Case) (*world, error) {
 		case "i64counter":
 			var x metric.Int64Counter
 			x, err = m.Int64Counter(in.Name, metric.WithUnit(in.Unit), metric.WithDescription(in.Desc))
-			w.rec[i] = func(t, v int) { x.Add(ctx, int64(v), sets[t]) }
+			w.rec[i] = func(ctx context.Context, o metric.MeasurementOption, v int) { x.Add(ctx, int64(v), o) }
 		case "f64counter":
 			var x metric.Float64Counter
 			x, err = m.Float64Counter(in.Name, metric.WithUnit(in.Unit), metric.WithDescription(in.Desc))
-			w.rec[i] = func(t, v int) { x.Add(ctx, float64(v)/8, sets[t]) }
+			w.rec[i] = func(ctx context.Context, o metric.MeasurementOption, v int) { x.Add(ctx, float64(v)/8, o) }
 		case "i64updown":
 			var x metric.Int64UpDownCounter
 			x, err = m.Int64UpDownCounter(in.Name, metric.WithUnit(in.Unit), metric.WithDescription(in.Desc))
-			w.rec[i] = func(t, v int) { x.Add(ctx, int64(v), sets[t]) }
+			w.rec[i] = func(ctx context.Context, o metric.MeasurementOption, v int) { x.Add(ctx, int64(v), o) }
 		case "f64updown":
 			var x metric.Float64UpDownCounter
 			x, err = m.Float64UpDownCounter(in.Name, metric.WithUnit(in.Unit), metric.WithDescription(in.Desc))
-			w.rec[i] = func(t, v int) { x.Add(ctx, float64(v)/8, sets[t]) }
+			w.rec[i] = func(ctx context.Context, o metric.MeasurementOption, v int) { x.Add(ctx, float64(v)/8, o) }
 		case "i64hist":
 			var x metric.Int64Histogram
 			x, err = m.Int64Histogram(in.Name, metric.WithUnit(in.Unit), metric.WithDescription(in.Desc))
-			w.rec[i] = func(t, v int) { x.Record(ctx, int64(v), sets[t]) }
+			w.rec[i] = func(ctx context.Context, o metric.MeasurementOption, v int) { x.Record(ctx, int64(v), o) }
 		case "f64hist":
 			var x metric.Float64Histogram
 			x, err = m.Float64Histogram(in.Name, metric.WithUnit(in.Unit), metric.WithDescription(in.Desc))
-			w.rec[i] = func(t, v int) { x.Record(ctx, float64(v)/8, sets[t]) }
+			w.rec[i] = func(ctx context.Context, o metric.MeasurementOption, v int) { x.Record(ctx, float64(v)/8, o) }
 		case "i64gauge":
 			var x metric.Int64Gauge
 			x, err = m.Int64Gauge(in.Name, metric.WithUnit(in.Unit), metric.WithDescription(in.Desc))
-			w.rec[i] = func(t, v int) { x.Record(ctx, int64(v), sets[t]) }
+			w.rec[i] = func(ctx context.Context, o metric.MeasurementOption, v int) { x.Record(ctx, int64(v), o) }
 		case "f64gauge":
 			var x metric.Float64Gauge
 			x, err = m.Float64Gauge(in.Name, metric.WithUnit(in.Unit), metric.WithDescription(in.Desc))
-			w.rec[i] = func(t, v int) { x.Record(ctx, float64(v)/8, sets[t]) }
+			w.rec[i] = func(ctx context.Context, o metric.MeasurementOption, v int) { x.Record(ctx, float64(v)/8, o) }
 		case "i64ocounter":
 			_, err = m.Int64ObservableCounter(in.Name, metric.WithUnit(in.Unit), metric.WithDescription(in.Desc), metric.WithInt64Callback(icb))
 		case "f64ocounter":
@@ -274,11 +311,39 @@ func build(c *Case) (*world, error) {
 	return w, nil
 }
 
-func (w *world) apply(ms []Meas) {
-	for _, m := range ms {
-		if f := w.rec[m.I]; f != nil {
-			f(m.T, m.V)
+// the attribute a View filter drops (Inst.ExDrop) and its two values: with
+// trace_id (8+32 runes) and span_id (7+16) the long one exceeds the 128 runes
+// Prometheus allows for the labels of one exemplar.
+const exKey = "ex.url"
+
+var (
+	exShort = "http://shop/o?a=1"
+	exLong  = "http://shop/orders?" + strings.Repeat("x", 70)
+)
+
+// exIDs derives the span context of the measurement at position k of round r.
+func exIDs(r, k int) (trace.TraceID, trace.SpanID) {
+	return trace.TraceID{0xc1, byte(r + 1), byte(k >> 8), byte(k), 0, 0, 0, 0, 0, 0, 0, 0, 0, 0, 0, 0x18},
+		trace.SpanID{0x5a, byte(r + 1), byte(k >> 8), byte(k), 0, 0, 0, 0x18}
+}
+
+// apply makes the measurements of round r.
+func (w *world) apply(r int, ms []Meas) {
+	for k, m := range ms {
+		f := w.rec[m.I]
+		if f == nil {
+			continue
 		}
+		ctx := context.Background()
+		if m.Ex > 0 {
+			tid, sid := exIDs(r, k)
+			ctx = trace.ContextWithSpanContext(ctx, trace.NewSpanContext(trace.SpanContextConfig{TraceID: tid, SpanID: sid, TraceFlags: trace.FlagsSampled}))
+		}
+		x := 0
+		if m.Ex >= 2 && w.c.Insts[m.I].ExDrop {
+			x = m.Ex - 1
+		}
+		f(ctx, w.sets[m.I][x][m.T], m.V)
 	}
 }
 
@@ -292,7 +357,9 @@ type checker struct {
 	// for it, the exporter's "invalid native histogram schema" is not held
 	// against it
 	tolerateSchemaErr bool
-	classes           map[string]bool // observed while checking (per case)
+	// a measurement whose exemplar cannot fit Prometheus' 128 runes was made
+	longExemplar bool
+	classes      map[string]bool // observed while checking (per case)
 }
 
 func (k *checker) class(cond bool, name string) {
@@ -319,7 +386,7 @@ func (k *checker) flushClasses(info *vk.Info) {
 func (k *checker) handled(tag string, errs *vk.ErrCapture) {
 	var es []error
 	for _, e := range errs.Errors() {
-		if k.tolerateSchemaErr && e.Error() == "invalid native histogram schema" {
+		if k.tolerated(e) {
 			continue
 		}
 		es = append(es, e)
@@ -624,6 +691,10 @@ func (k *checker) exact(tag string, mfs []*dto.MetricFamily, gerr error, rm *met
 				if got := m.GetCounter().GetValue(); got != pt.value {
 					k.bad("counter_value", "%s: %q%v = %v, the SDK aggregated %v", tag, clip(mf.GetName()), want, got, pt.value)
 				}
+				if !isObservable(in.Kind) {
+					cand, long := sampledOn(c, i, pt.attrs, o.upto)
+					k.counterExemplar(fmt.Sprintf("%s: %q%v", tag, clip(mf.GetName()), want), m, cand, long, in)
+				}
 			case dto.MetricType_GAUGE:
 				if o.skipSyncGauge && isGauge(in.Kind) && !isObservable(in.Kind) {
 					continue
@@ -644,12 +715,22 @@ func (k *checker) exact(tag string, mfs []*dto.MetricFamily, gerr error, rm *met
 				if h.GetSampleSum() != pt.value {
 					k.bad("histogram_sum", "%s: %q%v _sum = %v, the SDK aggregated %v", tag, clip(mf.GetName()), want, h.GetSampleSum(), pt.value)
 				}
-				if len(h.GetBucket()) != len(pt.bounds) {
-					k.bad("histogram_buckets", "%s: %q%v has %d finite buckets, the SDK has %d bounds", tag, clip(mf.GetName()), want, len(h.GetBucket()), len(pt.bounds))
+				bks := h.GetBucket()
+				if n := len(bks); n == len(pt.bounds)+1 && math.IsInf(bks[n-1].GetUpperBound(), 1) {
+					// client_golang adds the +Inf bucket when it carries an exemplar
+					if bks[n-1].GetCumulativeCount() != pt.count || bks[n-1].GetExemplar() == nil {
+						k.bad("histogram_bucket", "%s: %q%v explicit +Inf bucket has count %d (exemplar %v), _count is %d", tag, clip(mf.GetName()), want, bks[n-1].GetCumulativeCount(), bks[n-1].GetExemplar() != nil, pt.count)
+					}
+					bks = bks[:n-1]
+				}
+				cand, long := sampledOn(c, i, pt.attrs, o.upto)
+				k.histogramExemplars(fmt.Sprintf("%s: %q%v", tag, clip(mf.GetName()), want), h.GetBucket(), cand, long, in)
+				if len(bks) != len(pt.bounds) {
+					k.bad("histogram_buckets", "%s: %q%v has %d finite buckets, the SDK has %d bounds", tag, clip(mf.GetName()), want, len(bks), len(pt.bounds))
 					continue
 				}
 				cum := uint64(0)
-				for bi, b := range h.GetBucket() {
+				for bi, b := range bks {
 					cum += pt.buckets[bi]
 					if b.GetUpperBound() != pt.bounds[bi] || b.GetCumulativeCount() != cum {
 						k.bad("histogram_bucket", "%s: %q%v bucket %d is le=%v count=%d, want le=%v cumulative count=%d (SDK per-bucket counts %v)", tag, clip(mf.GetName()), want, bi, b.GetUpperBound(), b.GetCumulativeCount(), pt.bounds[bi], cum, pt.buckets)
@@ -862,6 +943,7 @@ func classify(c *Case, p *plan, info *vk.Info) {
 			}
 			san[s] = true
 		}
+		info.ClassIf(in.ExDrop, "instrument_with_attribute_filter_view")
 		info.ClassIf(in.ExpSize != 0, "exp_histogram_instrument")
 		info.ClassIf(in.ExpSize != 0, fmt.Sprintf("exp_histogram_maxsize_%d_maxscale_%d", in.ExpSize, in.ExpScale))
 		info.ClassIf(in.ExpSize != 0, "exp_histogram_sign_mode_"+[]string{"positive_only", "negative_only", "mixed"}[in.ExpSign%3])
@@ -870,6 +952,17 @@ func classify(c *Case, p *plan, info *vk.Info) {
 	}
 	info.ClassIf(collide && c.Legacy, "keys_collide_after_sanitisation(legacy)")
 	info.ClassIf(collide && !c.Legacy, "keys_would_collide_but_utf8")
+	exs := map[int]bool{}
+	for _, rd := range c.Rounds {
+		for _, m := range rd {
+			exs[m.Ex] = true
+		}
+	}
+	info.ClassIf(exs[1] || exs[2] || exs[3], "measurement_in_sampled_span")
+	info.ClassIf(exs[2], "exemplar_short_filtered_attribute")
+	info.ClassIf(exs[3], "exemplar_overlong_filtered_attribute")
+	info.ClassIf(c.Early, "scrape_before_registration")
+	info.ClassIf(c.Ghost, "second_never_registered_exporter")
 	info.ClassIf(c.Legacy, "scheme_legacy")
 	info.ClassIf(!c.Legacy, "scheme_utf8")
 	info.ClassIf(c.NoUnits, "without_units")
@@ -901,13 +994,23 @@ func runSeq(c Case) ([]vk.Violation, vk.Info) {
 		return k.vs, info
 	}
 	defer w.close()
+	if c.Early {
+		k.unregistered("scrape before registration", w.early, w.earlyErr)
+	}
 	for r := range c.Rounds {
 		w.round.Store(int32(r))
-		w.apply(c.Rounds[r])
+		w.apply(r, c.Rounds[r])
+		k.longExemplar = anyLongExemplar(&c, r+1)
 		tag := fmt.Sprintf("scrape %d", r+1)
 		mfs, gerr := w.reg.Gather()
 		var rm metricdata.ResourceMetrics
 		cerr := w.mr.Collect(context.Background(), &rm)
+		if c.Ghost {
+			// right after the first exporter's scrape: whatever it left behind
+			// in process-wide state is what the second one would pick up
+			gm, ge := w.ghostReg.Gather()
+			k.unregistered(fmt.Sprintf("never registered second exporter after scrape %d", r+1), gm, ge)
+		}
 		k.legality(tag, mfs)
 		if !p.strong() {
 			continue // soundness notes: only "no panic" and legal names
@@ -936,6 +1039,9 @@ func monotone(mfs []*dto.MetricFamily) map[string]float64 {
 			case dto.MetricType_HISTOGRAM:
 				out[key+"\x02count"] = float64(m.GetHistogram().GetSampleCount())
 				for _, b := range m.GetHistogram().GetBucket() {
+					if math.IsInf(b.GetUpperBound(), 1) {
+						continue // only there while it carries an exemplar
+					}
 					out[fmt.Sprintf("%s\x02le%v", key, b.GetUpperBound())] = float64(b.GetCumulativeCount())
 				}
 			}
@@ -979,11 +1085,28 @@ func concRun(k *checker, c *Case, rep int, errs *vk.ErrCapture) {
 			mfs []*dto.MetricFamily
 			err error
 		}
+		if c.Early {
+			k.unregistered(fmt.Sprintf("run %d scrape before registration", rep+1), w.early, w.earlyErr)
+		}
 		results := make([][]scrape, c.Gatherers)
+		var ghosts []scrape
 		nw := len(c.Rounds)
-		vk.Parallel(c.Gatherers+nw, func(g int) {
+		k.longExemplar = anyLongExemplar(c, nw)
+		ng := 0
+		if c.Ghost {
+			ng = 1
+		}
+		vk.Parallel(c.Gatherers+nw+ng, func(g int) {
+			if g >= c.Gatherers+nw {
+				// the never registered exporter is scraped while the first one works
+				for s := 0; s < c.ScrapesEach; s++ {
+					mfs, err := w.ghostReg.Gather()
+					ghosts = append(ghosts, scrape{mfs, err})
+				}
+				return
+			}
 			if g >= c.Gatherers {
-				w.apply(c.Rounds[g-c.Gatherers])
+				w.apply(g-c.Gatherers, c.Rounds[g-c.Gatherers])
 				return
 			}
 			for s := 0; s < c.ScrapesEach; s++ {
@@ -995,6 +1118,13 @@ func concRun(k *checker, c *Case, rep int, errs *vk.ErrCapture) {
 		mfs, gerr := w.reg.Gather()
 		var rm metricdata.ResourceMetrics
 		cerr := w.mr.Collect(context.Background(), &rm)
+		if c.Ghost {
+			gm, ge := w.ghostReg.Gather()
+			ghosts = append(ghosts, scrape{gm, ge})
+			for s, r := range ghosts {
+				k.unregistered(fmt.Sprintf("run %d never registered second exporter scrape %d", rep+1, s+1), r.mfs, r.err)
+			}
+		}
 		final := monotone(mfs)
 		for g, rs := range results {
 			prev := map[string]float64{}
